@@ -198,6 +198,73 @@ def check_full_flush(rep, mod, K):
             'so that the output of a following call cannot be appended', key='R-FULLFLUSH-HIST|c', sample='isal_deflate_stateless: end_of_stream = 1 only under NO_FLUSH')
 
 
+def check_stored_flush_reset(rep, mod):
+    """a full flush whose last block is written as a STORED block completes inside write_stored_block; sync_flush may never run in that call (the output can run out right behind the stored data), so the
+    match history has to be reset there - and the test that decides it reads the state the completed block has just been given"""
+    R = rep.rule('R-STORED-FLUSH-RESET', 'write_stored_block: the store that gives the machine its next state when a stored block is complete (a choice that includes ZSTATE_NEW_HDR) reaches, on a path without back edge, '
+                 'the test state == ZSTATE_NEW_HDR that guards reset_match_history, and that call lies behind the test: after a FULL_FLUSH that ends in a stored block the match history is cleared before the '
+                 'call returns', floor=1, unit='stored-block completions')
+    f = mod.funcs.get('write_stored_block')
+    if f is None:
+        raise AnalysisBroken('write_stored_block not found')
+    off = c19.field_offsets('struct isal_zstream', ['internal_state.state'])['internal_state.state']
+    Kz, drop = mirror.c_values('default', ['igzip_lib.h'], [('NEW', 'ZSTATE_NEW_HDR')], 'c14_zs')
+    if drop:
+        raise AnalysisBroken('ZSTATE_NEW_HDR not found')
+    P = irrules.prov(mod, f)
+    cell = {('param', 0, off)}
+
+    def consts(v, depth=0):
+        if re.match(r'^-?\d+$', v):
+            return {int(v)}
+        d = f.defs.get(irrules._strip(f, v))
+        if d is None or depth > 5:
+            return set()
+        if d.op == 'select':
+            return consts(d.ops[1], depth + 1) | consts(d.ops[2], depth + 1)
+        if d.op == 'phi':
+            out = set()
+            for x, _ in d.extra['incoming']:
+                out |= consts(x, depth + 1)
+            return out
+        return set()
+    stores = [i for i in f.all_insns() if i.op == 'store' and P.atoms(i.ops[1]) == cell and Kz['NEW'] in consts(i.ops[0]) and len(consts(i.ops[0])) > 1]
+    calls = [i for i in f.all_insns() if i.op == 'call' and base_name(i.callee) == 'reset_match_history']
+    tests = []
+    for b, br, c in irrules.cond_branches(mod, f):
+        if c is None or c.op != 'icmp' or c.extra['pred'] not in ('eq', 'ne') or not re.match(r'^\d+$', c.ops[1]) or int(c.ops[1]) != Kz['NEW']:
+            continue
+        d = f.defs.get(irrules._strip(f, c.ops[0]))
+        if d is not None and d.op == 'load' and P.atoms(d.ops[0]) == cell:
+            tests.append((b, d, br.extra['targets'][0 if c.extra['pred'] == 'eq' else 1]))
+    if not stores or not calls:
+        raise AnalysisBroken('write_stored_block: completion store / reset_match_history call not found')
+    pos = {}
+    for b in f.order:
+        for n, i in enumerate(f.blocks[b].insns):
+            pos[id(i)] = (b, n)
+    succ = {b: [t_ for t_ in (f.blocks[b].insns[-1].extra.get('targets') or []) if not f.dominates(t_, b)] for b in f.order}     # back edges removed
+
+    def reach(src):
+        seen, work = set(), list(succ.get(src, []))
+        while work:
+            x = work.pop()
+            if x in seen:
+                continue
+            seen.add(x)
+            work += succ.get(x, [])
+        return seen
+
+    def before(a, b_):
+        (ba, na), (bb, nb) = pos[id(a)], pos[id(b_)]
+        return (ba == bb and na < nb) or (ba != bb and bb in reach(ba))
+    for s_ in stores:
+        R.instance()
+        ok = any(before(s_, ld) and any(f.dominates(arm, k.block) for k in calls) for _, ld, arm in tests)
+        R.check(ok, mod.where(f, s_), 'write_stored_block stores the next state here, but no test "state == ZSTATE_NEW_HDR" guarding reset_match_history reads it afterwards (the test runs on the state the block had '
+                'while it was being copied and is never true): a FULL_FLUSH that ends in a stored block with the output full leaves the match history in place', key='R-STORED-FLUSH-RESET', sample='next state stored, then tested, then history reset')
+
+
 def check_mask_width(rep, mod):
     """clearing BFINAL in a 64-bit word of header bits with a 32-bit complement mask wipes the upper half of the word"""
     R = rep.rule('L-MASK-WIDTH', 'no 64-bit value anywhere in the library is AND-ed with a constant in [2^31, 2^32): such a constant is a complement mask computed in 32 bits and zero-extended (x &= ~1u on a uint64_t), '
@@ -269,6 +336,7 @@ def main(tier):
         raise AnalysisBroken('constants missing: %s' % drop)
     rep.attempt(check_marker, rep, mod, K)
     rep.attempt(check_full_flush, rep, mod, K)
+    rep.attempt(check_stored_flush_reset, rep, mod)
     rep.attempt(check_mask_width, rep, mod)
     rep.attempt(check_flush_reaches_int, rep, mod, K)
     import c17
